@@ -40,8 +40,33 @@ def gen(rng, prop, job):
     return m4_queue.gen_scenario(rng, prop)
 
 
+def gen_small(rng, prop, job):
+    """two or three threads with one or two operations each on a queue of capacity 1 or 2"""
+    from . import m4_queue
+    sc = m4_queue.gen_scenario(rng, prop)
+    sc["threads"] = [t[:(2 if i == 0 else 1)] for i, t in enumerate(sc["threads"][:3])]
+    sc["max"] = min(sc["max"], 2)
+    sc["prefill"] = sc["prefill"][:sc["max"]]
+    used = set()
+    for t in sc["threads"]:
+        for op in t:
+            if op[0] == "add_till":
+                used.add(op[2])
+            elif op[0] == "pop_till":
+                used.add(op[1])
+    sc["fire"] = [x for x in sc["fire"] if x in used]
+    sc["nstall"] = min(sc.get("nstall", 0), 1)
+    return sc
+
+
 def make_jobs(prop, tier, seed):
-    return plug.std_jobs(prop, tier, seed, "m4", n_quick=16, per_quick=8, schedules=6)
+    jobs = plug.std_jobs(prop, tier, seed, "m4", n_quick=16, per_quick=8, schedules=6)
+    if tier == "thorough":
+        for j in range(24):
+            jobs.append({"kind": "pbound", "prop": prop, "seed": seed * 104729 + j, "k": 2, "budget": 1500})
+    else:
+        jobs.append({"kind": "pbound", "prop": prop, "seed": seed * 104729, "k": 1, "budget": 150})
+    return jobs
 
 
 def search_jobs(prop, tier, seed, corr_fail):
@@ -49,6 +74,8 @@ def search_jobs(prop, tier, seed, corr_fail):
 
 
 def run_job(job):
+    if job["kind"] == "pbound":
+        return plug.pbound_job(MODEL, gen_small, job)
     return plug.std_job(MODEL, gen, job)
 
 
